@@ -23,14 +23,14 @@ def run(chk, flags=FLAGS, reload_kinds=(), tag="c01"):
     thorough = chk.tier == "thorough"
     mc(chk, ["Agent_thorough.cfg", "Agent_quick2.cfg"] if thorough else ["Agent_quick2.cfg"])
     rnd = random.Random(chk.seed)
-    behs = chk.tlc_simulate("Agent", "Agent_thorough.cfg", 300 if thorough else 24, 120, chk.seed)
+    behs = chk.tlc_simulate("Agent", "Agent_thorough.cfg", 900 if thorough else 24, 120, chk.seed)
     scripts = A.stories() + [A.script_from_behaviour(b, "sim%d" % i, rnd) for i, b in enumerate(behs)]
-    scripts += [A.random_script("rnd%d" % i, rnd, reload_kinds) for i in range(900 if thorough else 26)]
+    scripts += [A.random_script("rnd%d" % i, rnd, reload_kinds) for i in range(3000 if thorough else 26)]
     n, ev, rej, consts = A.run_scripts(chk, scripts, flags, tag)
     A.handle(chk, rej, flags, tag, consts)
     chk.cov.update({"traces_validated_against_impl": n, "trace_events": ev, "evaluations": n, "tlc_behaviours_replayed": len(behs),
                     "distinct_nontrivial": len({json.dumps(s["gens"], sort_keys=True) for s in scripts if any(g["upstream"] for g in s["gens"])}),
-                    "rule": "histories = six fixed stories (refuse then healthy, reset after the first chunk, never-ACK then restart, late ACK after reconnect, disk spill with a 2-chunk memory window then restart, stop in mid retry) + the environment projection of TLC -simulate behaviours of Agent + seeded random histories (1-3 generations on one queue root, 1-3 client connections, 1-3 key sets, per-connection upstream behaviours healthy/close at once/never ACK/reset after 1 or 2 chunks/late ACK), each ending with a healthy generation that drains; non-trivial = at least one scripted upstream behaviour",
+                    "rule": "histories = fixed stories (refuse then healthy, reset after the first chunk, never-ACK then restart, late ACK after reconnect, disk spill with a 2-chunk memory window then restart, stop in mid retry, connections left open across the stop with a slow input flush, two outputs with one upstream down then a restart without new input, the agent's own main path run.Run in a child process stopped by SIGTERM and reloaded by SIGHUP) + the environment projection of TLC -simulate behaviours of Agent + seeded random histories (1-3 generations on one queue root, 1-3 client connections, 1-3 key sets, per-connection upstream behaviours healthy/close at once/never ACK/reset after 1 or 2 chunks/late ACK), each ending with a healthy generation that drains; non-trivial = at least one scripted upstream behaviour",
                     "samples": [scripts[1], scripts[-1]]})
     chk.assumptions += ["graceful stops only; clients close and the harness waits until the input counters show every line as read before it stops the agent",
                         "timeouts scaled to milliseconds through defs; a rejection is a violation only if the same history is rejected again on a re-run"]
